@@ -15,12 +15,12 @@ package common
 //@   property C05, C02
 //@   modifies nothing
 //@   ensures result == nil ==> len(s) == 3 && s[2] <= Operator64
-//@   ensures [c02-format] result == nil ==> ScriptOK(s)
+//@   ensures [c02-format] @C02 result == nil ==> ScriptOK(s)
 
 //@ func (s Script) Validate
 //@   property C05, C02
 //@   modifies nothing
-//@   ensures [c02-threshold] result == nil ==> ScriptOK(s) && sum >= s[2] -- the threshold check of C02: at least s[2] signers
+//@   ensures [c02-threshold] @C02 result == nil ==> ScriptOK(s) && sum >= s[2] -- the threshold check of C02: at least s[2] signers
 
 //@ assume func (s Script) String
 //@   pure
@@ -165,37 +165,37 @@ package common
 //@       (utxo.Type == OutputTypeNodeAccept && txType == TransactionTypeNodeRemove)
 //@   -- C02, per-input signature map: every signer index of sigs[index] is a key index of the spent output, that key is collected (mapped to
 //@   -- the signature submitted under that index when the key objects are distinct), and the number of (distinct) indices reaches the threshold
-//@   ensures [c02-map-keys] result == nil && SignedType(utxo.Type) && as == nil ==> index < len(sigs) &&
+//@   ensures [c02-map-keys] @C02 result == nil && SignedType(utxo.Type) && as == nil ==> index < len(sigs) &&
 //@       (forall i uint16 :: has(sigs[index], i) ==> i < len(utxo.Keys) && has(keySigs, utxo.Keys[i]))
-//@   ensures [c02-map-sigs] result == nil && SignedType(utxo.Type) && as == nil && PtrDistinct(utxo.Keys) ==>
+//@   ensures [c02-map-sigs] @C02 result == nil && SignedType(utxo.Type) && as == nil && PtrDistinct(utxo.Keys) ==>
 //@       (forall i uint16 :: has(sigs[index], i) ==> keySigs[utxo.Keys[i]] == sigs[index][i])
-//@   ensures [c02-map-threshold] result == nil && SignedType(utxo.Type) && as == nil ==> ScriptOK(utxo.Script) && SigCount(sigs[index]) >= utxo.Script[2]
+//@   ensures [c02-map-threshold] @C02 result == nil && SignedType(utxo.Type) && as == nil ==> ScriptOK(utxo.Script) && SigCount(sigs[index]) >= utxo.Script[2]
 //@   -- C02, aggregate signature: the signers are strictly increasing; those that fall into this input's window [offset, offset+len(Keys))
 //@   -- are the contiguous run as.Signers[lo .. lo+n), each is mapped to Keys[m-offset] (collected), and n reaches the threshold
 //@   -- (NoWrap: offset + len(Keys) is computed in machine ints; both are lengths of slices that exist at the same time, so it cannot wrap)
-//@   ensures [c02-agg] result == nil && SignedType(utxo.Type) && as != nil && NoWrap(offset, utxo.Keys) ==> SignersOK(as.Signers) && ScriptOK(utxo.Script) &&
+//@   ensures [c02-agg] @C02 result == nil && SignedType(utxo.Type) && as != nil && NoWrap(offset, utxo.Keys) ==> SignersOK(as.Signers) && ScriptOK(utxo.Script) &&
 //@       (exists lo, n int :: {Witness2(lo, n)} Witness2(lo, n) && AggWindow(as.Signers, lo, n, offset, offset + len(utxo.Keys)) && n >= utxo.Script[2] &&
 //@           (forall j int :: lo <= j && j < lo + n ==> has(keySigs, utxo.Keys[as.Signers[j] - offset])))
-//@   ensures [c02-agg-has] result == nil && SignedType(utxo.Type) && as != nil && NoWrap(offset, utxo.Keys) ==> forall i int :: 0 <= i && i < len(as.Signers) &&
+//@   ensures [c02-agg-has] @C02 result == nil && SignedType(utxo.Type) && as != nil && NoWrap(offset, utxo.Keys) ==> forall i int :: 0 <= i && i < len(as.Signers) &&
 //@       offset <= as.Signers[i] && as.Signers[i] < offset + len(utxo.Keys) ==> has(keySigs, utxo.Keys[as.Signers[i] - offset]) -- every signer of the window is collected
 //@   -- what happens to the other entries of keySigs: the keys of this output are not yet collected (they are new objects: [c02-disjoint],
 //@   -- established by validateInputs), so every earlier entry is kept with its signature; every new entry is an existing object
-//@   ensures [c02-kept] forall p *crypto.Key :: old(has(keySigs, p)) ==> has(keySigs, p) && keySigs[p] == old(keySigs[p])
-//@   ensures [c02-dom] forall p *crypto.Key :: has(keySigs, p) ==> old(has(keySigs, p)) || allocated(p)
+//@   ensures [c02-kept] @C02 forall p *crypto.Key :: old(has(keySigs, p)) ==> has(keySigs, p) && keySigs[p] == old(keySigs[p])
+//@   ensures [c02-dom] @C02 forall p *crypto.Key :: has(keySigs, p) ==> old(has(keySigs, p)) || allocated(p)
 //@   hint return [win] NoWrap(offset, utxo.Keys) ==> AggWindow(as.Signers, rangeindex_0 + 1 - signers, signers, offset, offset + len(utxo.Keys))
 //@   hint return [run] forall j int :: rangeindex_0 + 1 - signers <= j && j < rangeindex_0 + 1 ==> has(keySigs, utxo.Keys[as.Signers[j] - offset])
 //@   hint return [wit] Witness2(rangeindex_0 + 1 - signers, signers) -- names the witness (lo, n) of [c02-agg] for the solver (Witness2 is constantly true)
-//@   loop 0 invariant [c02-lo] 0 <= signers && signers <= rangeindex + 1
-//@   loop 0 invariant [c02-before] forall j int :: 0 <= j && j < rangeindex + 1 - signers ==> as.Signers[j] < offset
-//@   loop 0 invariant [c02-run] forall j int :: rangeindex + 1 - signers <= j && j <= rangeindex ==>
+//@   loop 0 invariant [c02-lo] @C02 0 <= signers && signers <= rangeindex + 1
+//@   loop 0 invariant [c02-before] @C02 forall j int :: 0 <= j && j < rangeindex + 1 - signers ==> as.Signers[j] < offset
+//@   loop 0 invariant [c02-run] @C02 forall j int :: rangeindex + 1 - signers <= j && j <= rangeindex ==>
 //@       offset <= as.Signers[j] && as.Signers[j] < offset + len(utxo.Keys) && has(keySigs, utxo.Keys[as.Signers[j] - offset])
-//@   loop 0 invariant [c02-kept] forall p *crypto.Key :: old(has(keySigs, p)) ==> has(keySigs, p) && keySigs[p] == old(keySigs[p])
-//@   loop 0 invariant [c02-dom] forall p *crypto.Key :: has(keySigs, p) ==> old(has(keySigs, p)) || allocated(p)
-//@   loop 1 invariant [c02-seen] forall i uint16 :: visited(sigs[index], i) ==> i < len(utxo.Keys) && has(keySigs, utxo.Keys[i])
-//@   loop 1 invariant [c02-seen-sig] PtrDistinct(utxo.Keys) ==> forall i uint16 :: visited(sigs[index], i) ==> keySigs[utxo.Keys[i]] == sigs[index][i]
-//@   loop 1 invariant [c02-len] len(sigs[index]) == old(len(sigs[index]))
-//@   loop 1 invariant [c02-kept] forall p *crypto.Key :: old(has(keySigs, p)) ==> has(keySigs, p) && keySigs[p] == old(keySigs[p])
-//@   loop 1 invariant [c02-dom] forall p *crypto.Key :: has(keySigs, p) ==> old(has(keySigs, p)) || allocated(p)
+//@   loop 0 invariant [c02-kept] @C02 forall p *crypto.Key :: old(has(keySigs, p)) ==> has(keySigs, p) && keySigs[p] == old(keySigs[p])
+//@   loop 0 invariant [c02-dom] @C02 forall p *crypto.Key :: has(keySigs, p) ==> old(has(keySigs, p)) || allocated(p)
+//@   loop 1 invariant [c02-seen] @C02 forall i uint16 :: visited(sigs[index], i) ==> i < len(utxo.Keys) && has(keySigs, utxo.Keys[i])
+//@   loop 1 invariant [c02-seen-sig] @C02 PtrDistinct(utxo.Keys) ==> forall i uint16 :: visited(sigs[index], i) ==> keySigs[utxo.Keys[i]] == sigs[index][i]
+//@   loop 1 invariant [c02-len] @C02 len(sigs[index]) == old(len(sigs[index]))
+//@   loop 1 invariant [c02-kept] @C02 forall p *crypto.Key :: old(has(keySigs, p)) ==> has(keySigs, p) && keySigs[p] == old(keySigs[p])
+//@   loop 1 invariant [c02-dom] @C02 forall p *crypto.Key :: has(keySigs, p) ==> old(has(keySigs, p)) || allocated(p)
 
 //@ spec InputKey(in *Input) string = fmt.Sprintf2("%s:%d", iface(in.Hash.String()), iface(in.Index))
 //@ spec InLedger(s any, in *Input) bool = LedgerHasTx(s, in.Hash) && 0 <= in.Index && in.Index < LedgerOutCount(s, in.Hash)
@@ -219,58 +219,58 @@ package common
 //@   loop 0 invariant len(keySigs) > 0 ==> exists k int :: 0 <= k && k <= rangeindex && SignedType(InputUtxoType(store, tx.Inputs[k]))
 //@   -- C01: the returned amount is the sum of the amounts the store holds for ALL inputs (all ordinary), each of the transaction's asset;
 //@   -- or it is the amount of the first non-ordinary input (mint / deposit), the inputs before it being ignored
-//@   ensures [c01-sum] err == nil && OrdInputs(&tx.Transaction) ==> val(result1) == SumIn(store, &tx.Transaction, len(tx.Inputs))
-//@   ensures [c01-asset] err == nil && OrdInputs(&tx.Transaction) ==> forall i int :: 0 <= i && i < len(tx.Inputs) ==> InputAssetIs(store, tx.Inputs[i], tx.Asset)
-//@   ensures [c01-genesis] err == nil && NoSpecialInputs(&tx.Transaction) ==> OrdInputs(&tx.Transaction) -- a non-empty Genesis is rejected
-//@   ensures [c01-special] err == nil ==> forall k int :: 0 <= k && k < len(tx.Inputs) && !OrdInput(tx.Inputs[k]) && (forall j int :: 0 <= j && j < k ==> OrdInput(tx.Inputs[j])) ==>
+//@   ensures [c01-sum] @C01 err == nil && OrdInputs(&tx.Transaction) ==> val(result1) == SumIn(store, &tx.Transaction, len(tx.Inputs))
+//@   ensures [c01-asset] @C01 err == nil && OrdInputs(&tx.Transaction) ==> forall i int :: 0 <= i && i < len(tx.Inputs) ==> InputAssetIs(store, tx.Inputs[i], tx.Asset)
+//@   ensures [c01-genesis] @C01 err == nil && NoSpecialInputs(&tx.Transaction) ==> OrdInputs(&tx.Transaction) -- a non-empty Genesis is rejected
+//@   ensures [c01-special] @C01 err == nil ==> forall k int :: 0 <= k && k < len(tx.Inputs) && !OrdInput(tx.Inputs[k]) && (forall j int :: 0 <= j && j < k ==> OrdInput(tx.Inputs[j])) ==>
 //@       len(tx.Inputs[k].Genesis) == 0 &&
 //@       (tx.Inputs[k].Mint != nil ==> val(result1) == val(tx.Inputs[k].Mint.Amount)) &&
 //@       (tx.Inputs[k].Mint == nil ==> tx.Inputs[k].Deposit != nil && val(result1) == val(tx.Inputs[k].Deposit.Amount))
 //@   -- C02, per-input signature maps: for every input k that spends a script / node-remove output and every index i of its signature map,
 //@   -- i is a key index of that output and the submitted signature is valid for key i over `hash` (BatchVerify said so); the number of
 //@   -- distinct indices reaches the output's threshold
-//@   ensures [c02-batch] err == nil && tx.AggregatedSignature == nil ==> forall k int, i uint16 :: {tx.Inputs[k], has(tx.SignaturesMap[k], i)} 0 <= k && k < len(tx.Inputs) && OrdInputs(&tx.Transaction) &&
+//@   ensures [c02-batch] @C02 err == nil && tx.AggregatedSignature == nil ==> forall k int, i uint16 :: {tx.Inputs[k], has(tx.SignaturesMap[k], i)} 0 <= k && k < len(tx.Inputs) && OrdInputs(&tx.Transaction) &&
 //@       SignedType(InputUtxoType(store, tx.Inputs[k])) && has(tx.SignaturesMap[k], i) ==> i < InKeyCount(store, tx.Inputs[k]) &&
 //@       crypto.SigOK(seq(InKeyVal(store, tx.Inputs[k], i)), seq(hash), seq(*tx.SignaturesMap[k][i]))
-//@   ensures [c02-threshold] err == nil && tx.AggregatedSignature == nil && OrdInputs(&tx.Transaction) ==> forall k int :: {tx.Inputs[k]} 0 <= k && k < len(tx.Inputs) &&
+//@   ensures [c02-threshold] @C02 err == nil && tx.AggregatedSignature == nil && OrdInputs(&tx.Transaction) ==> forall k int :: {tx.Inputs[k]} 0 <= k && k < len(tx.Inputs) &&
 //@       SignedType(InputUtxoType(store, tx.Inputs[k])) ==> k < len(tx.SignaturesMap) && SigCount(tx.SignaturesMap[k]) >= InThreshold(store, tx.Inputs[k])
 //@   -- C02, aggregate signature: allKeys is the concatenation of the inputs' key lists in input order (input k owns the index window
 //@   -- [KeyOff(k), KeyOff(k+1))); for every input k that spends a script / node-remove output exactly the signers as.Signers[lo .. lo+n) fall into
 //@   -- its window and n reaches its threshold; AggregateVerify accepted the signature for `hash` over the transcript in which signer position i is
 //@   -- (index as.Signers[i], the key of that window at that offset)
-//@   ensures [c02-agg-threshold] err == nil && tx.AggregatedSignature != nil && OrdInputs(&tx.Transaction) ==>
+//@   ensures [c02-agg-threshold] @C02 err == nil && tx.AggregatedSignature != nil && OrdInputs(&tx.Transaction) ==>
 //@       (forall k int :: {tx.Inputs[k]} 0 <= k && k < len(tx.Inputs) && SignedType(InputUtxoType(store, tx.Inputs[k])) ==> SignersOK(tx.AggregatedSignature.Signers) &&
 //@           exists lo, n int :: {Witness2(lo, n)} Witness2(lo, n) && n >= InThreshold(store, tx.Inputs[k]) &&
 //@               AggWindow(tx.AggregatedSignature.Signers, lo, n, KeyOff(store, &tx.Transaction, k), KeyOff(store, &tx.Transaction, k) + InKeyCount(store, tx.Inputs[k])))
-//@   ensures [c02-agg-verified] err == nil && tx.AggregatedSignature != nil && OrdInputs(&tx.Transaction) ==>
+//@   ensures [c02-agg-verified] @C02 err == nil && tx.AggregatedSignature != nil && OrdInputs(&tx.Transaction) ==>
 //@       forall k, i int :: {tx.Inputs[k], tx.AggregatedSignature.Signers[i]} 0 <= k && k < len(tx.Inputs) && SignedType(InputUtxoType(store, tx.Inputs[k])) && InAggWindow(store, tx, k, i) ==>
 //@           crypto.AggSigner(seq(tx.AggregatedSignature.Signature), seq(hash), len(tx.AggregatedSignature.Signers), i, tx.AggregatedSignature.Signers[i],
 //@               seq(InKeyVal(store, tx.Inputs[k], tx.AggregatedSignature.Signers[i] - KeyOff(store, &tx.Transaction, k))))
-//@   loop 0 invariant [c02-alllen] len(allKeys) == KeyOff(store, &tx.Transaction, rangeindex + 1)
-//@   loop 0 invariant [c02-offmono] forall k int :: {tx.Inputs[k]} 0 <= k && k <= rangeindex ==> 0 <= KeyOff(store, &tx.Transaction, k) && InKeyCount(store, tx.Inputs[k]) >= 0 &&
+//@   loop 0 invariant [c02-alllen] @C02 len(allKeys) == KeyOff(store, &tx.Transaction, rangeindex + 1)
+//@   loop 0 invariant [c02-offmono] @C02 forall k int :: {tx.Inputs[k]} 0 <= k && k <= rangeindex ==> 0 <= KeyOff(store, &tx.Transaction, k) && InKeyCount(store, tx.Inputs[k]) >= 0 &&
 //@       KeyOff(store, &tx.Transaction, k) + InKeyCount(store, tx.Inputs[k]) <= KeyOff(store, &tx.Transaction, rangeindex + 1)
-//@   loop 0 invariant [c02-allval] forall k, a int :: {tx.Inputs[k], allKeys[a]} 0 <= k && k <= rangeindex && KeyOff(store, &tx.Transaction, k) <= a &&
+//@   loop 0 invariant [c02-allval] @C02 forall k, a int :: {tx.Inputs[k], allKeys[a]} 0 <= k && k <= rangeindex && KeyOff(store, &tx.Transaction, k) <= a &&
 //@       a < KeyOff(store, &tx.Transaction, k) + InKeyCount(store, tx.Inputs[k]) ==>
 //@       allKeys[a] != nil && *allKeys[a] == InKeyVal(store, tx.Inputs[k], a - KeyOff(store, &tx.Transaction, k))
-//@   loop 0 invariant [c02-aggok] tx.AggregatedSignature != nil && len(keySigs) > 0 ==> SignersOK(tx.AggregatedSignature.Signers)
-//@   loop 0 invariant [c02-aggwin] tx.AggregatedSignature != nil ==> forall k int :: {tx.Inputs[k]} 0 <= k && k <= rangeindex && SignedType(InputUtxoType(store, tx.Inputs[k])) ==>
+//@   loop 0 invariant [c02-aggok] @C02 tx.AggregatedSignature != nil && len(keySigs) > 0 ==> SignersOK(tx.AggregatedSignature.Signers)
+//@   loop 0 invariant [c02-aggwin] @C02 tx.AggregatedSignature != nil ==> forall k int :: {tx.Inputs[k]} 0 <= k && k <= rangeindex && SignedType(InputUtxoType(store, tx.Inputs[k])) ==>
 //@       SignersOK(tx.AggregatedSignature.Signers) && (exists lo, n int :: {Witness2(lo, n)} Witness2(lo, n) && n >= InThreshold(store, tx.Inputs[k]) &&
 //@           AggWindow(tx.AggregatedSignature.Signers, lo, n, KeyOff(store, &tx.Transaction, k), KeyOff(store, &tx.Transaction, k) + InKeyCount(store, tx.Inputs[k])))
-//@   loop 0 invariant [c02-agghas] tx.AggregatedSignature != nil ==> forall k, i int :: 0 <= k && k <= rangeindex && SignedType(InputUtxoType(store, tx.Inputs[k])) &&
+//@   loop 0 invariant [c02-agghas] @C02 tx.AggregatedSignature != nil ==> forall k, i int :: 0 <= k && k <= rangeindex && SignedType(InputUtxoType(store, tx.Inputs[k])) &&
 //@       InAggWindow(store, tx, k, i) ==> exists p *crypto.Key :: {has(keySigs, p)} has(keySigs, p) -- a signer in a window means that a key was collected
-//@   loop 0 invariant [c02-keys-old] forall p *crypto.Key :: has(keySigs, p) ==> allocated(p)
-//@   loop 0 invariant [c02-oldmaps] forall k int :: 0 <= k && k < len(tx.SignaturesMap) ==> !fresh(tx.SignaturesMap[k])
-//@   loop 0 invariant [c02-sigs] tx.AggregatedSignature == nil ==> forall k int, i uint16 :: 0 <= k && k <= rangeindex &&
+//@   loop 0 invariant [c02-keys-old] @C02 forall p *crypto.Key :: has(keySigs, p) ==> allocated(p)
+//@   loop 0 invariant [c02-oldmaps] @C02 forall k int :: 0 <= k && k < len(tx.SignaturesMap) ==> !fresh(tx.SignaturesMap[k])
+//@   loop 0 invariant [c02-sigs] @C02 tx.AggregatedSignature == nil ==> forall k int, i uint16 :: 0 <= k && k <= rangeindex &&
 //@       SignedType(InputUtxoType(store, tx.Inputs[k])) && has(tx.SignaturesMap[k], i) ==> i < InKeyCount(store, tx.Inputs[k]) &&
 //@       (exists p *crypto.Key :: {has(keySigs, p)} has(keySigs, p) && p != nil && allocated(p) && keySigs[p] == tx.SignaturesMap[k][i] && *p == InKeyVal(store, tx.Inputs[k], i))
-//@   loop 0 invariant [c02-thr] tx.AggregatedSignature == nil ==> forall k int :: {tx.Inputs[k]} 0 <= k && k <= rangeindex &&
+//@   loop 0 invariant [c02-thr] @C02 tx.AggregatedSignature == nil ==> forall k int :: {tx.Inputs[k]} 0 <= k && k <= rangeindex &&
 //@       SignedType(InputUtxoType(store, tx.Inputs[k])) ==> k < len(tx.SignaturesMap) && SigCount(tx.SignaturesMap[k]) >= InThreshold(store, tx.Inputs[k])
-//@   loop 1 invariant [c02-lens] len(keys) == len(sigs)
-//@   loop 1 invariant [c02-wit] Witness1(len(keys) - 1) -- (constant true) puts the index of the element appended last into the solver's term set
-//@   loop 1 invariant [c02-collected] forall p *crypto.Key :: visited(keySigs, p) ==> exists a int :: {Witness1(a)} Witness1(a) && 0 <= a && a < len(keys) && keys[a] == p && sigs[a] == keySigs[p]
-//@   loop 0 invariant [c01-ord] forall j int :: 0 <= j && j <= rangeindex ==> OrdInput(tx.Inputs[j])
-//@   loop 0 invariant [c01-sum] val(inputAmount) == SumIn(store, &tx.Transaction, rangeindex + 1)
-//@   loop 0 invariant [c01-asset] forall j int :: 0 <= j && j <= rangeindex ==> InputAssetIs(store, tx.Inputs[j], tx.Asset)
+//@   loop 1 invariant [c02-lens] @C02 len(keys) == len(sigs)
+//@   loop 1 invariant [c02-wit] @C02 Witness1(len(keys) - 1) -- (constant true) puts the index of the element appended last into the solver's term set
+//@   loop 1 invariant [c02-collected] @C02 forall p *crypto.Key :: visited(keySigs, p) ==> exists a int :: {Witness1(a)} Witness1(a) && 0 <= a && a < len(keys) && keys[a] == p && sigs[a] == keySigs[p]
+//@   loop 0 invariant [c01-ord] @C01 forall j int :: 0 <= j && j <= rangeindex ==> OrdInput(tx.Inputs[j])
+//@   loop 0 invariant [c01-sum] @C01 val(inputAmount) == SumIn(store, &tx.Transaction, rangeindex + 1)
+//@   loop 0 invariant [c01-asset] @C01 forall j int :: 0 <= j && j <= rangeindex ==> InputAssetIs(store, tx.Inputs[j], tx.Asset)
 
 //@ -- OutKeysOld: the key arrays were allocated before the call (true of every object reachable from an argument; stated because the
 //@ -- engine otherwise cannot separate them from the slices the function allocates itself)
@@ -310,13 +310,13 @@ package common
 //@   -- which is positive; every ordinary input is an output that exists in the ledger and has the transaction's asset.
 //@   -- The clauses describe the transaction AS PASSED IN (old state): Validate writes only the caches ver.hash / ver.pmbytes / ver.validatedSize
 //@   -- (and hash caches of store-returned transactions in validateNodeRemove, whose frame cannot be named), so old == new for every field used.
-//@   ensures [c01-nonempty] err == nil ==> old(len(ver.Inputs) >= 1 && len(ver.Outputs) >= 1)
-//@   ensures [c01-shape] err == nil ==> old(forall j int :: 0 <= j && j < len(ver.Inputs) ==> OrdInput(ver.Inputs[j]) ||
+//@   ensures [c01-nonempty] @C01 err == nil ==> old(len(ver.Inputs) >= 1 && len(ver.Outputs) >= 1)
+//@   ensures [c01-shape] @C01 err == nil ==> old(forall j int :: 0 <= j && j < len(ver.Inputs) ==> OrdInput(ver.Inputs[j]) ||
 //@       (len(ver.Inputs) == 1 && len(ver.Inputs[0].Genesis) == 0 && (ver.Inputs[0].Mint != nil || ver.Inputs[0].Deposit != nil)))
-//@   ensures [c01-positive] err == nil ==> old(forall a int :: 0 <= a && a < len(ver.Outputs) ==> val(ver.Outputs[a].Amount) > 0)
-//@   ensures [c01-conserved] err == nil ==> old(SumOut(&ver.Transaction, len(ver.Outputs)) == TxInAmount(store, &ver.Transaction))
-//@   ensures [c01-input-positive] err == nil ==> old(TxInAmount(store, &ver.Transaction) > 0)
-//@   ensures [c01-asset] err == nil ==> old(forall k int :: 0 <= k && k < len(ver.Inputs) && OrdInput(ver.Inputs[k]) ==>
+//@   ensures [c01-positive] @C01 err == nil ==> old(forall a int :: 0 <= a && a < len(ver.Outputs) ==> val(ver.Outputs[a].Amount) > 0)
+//@   ensures [c01-conserved] @C01 err == nil ==> old(SumOut(&ver.Transaction, len(ver.Outputs)) == TxInAmount(store, &ver.Transaction))
+//@   ensures [c01-input-positive] @C01 err == nil ==> old(TxInAmount(store, &ver.Transaction) > 0)
+//@   ensures [c01-asset] @C01 err == nil ==> old(forall k int :: 0 <= k && k < len(ver.Inputs) && OrdInput(ver.Inputs[k]) ==>
 //@       InLedger(store, ver.Inputs[k]) && InputAssetIs(store, ver.Inputs[k], ver.Asset))
 //@   -- C02 (the property statement; old state = the transaction as passed in): every ordinary input k that spends a script / node-remove output is
 //@   -- authorised over the payload hash PayloadHashOf(ver). Signature maps: every index i of SignaturesMap[k] is a key index of the spent output and
@@ -342,16 +342,16 @@ package common
 //@       SignedType(InputUtxoType(store, ver.Inputs[k])) && InAggWindow(store, &ver.SignedTransaction, k, i) ==>
 //@       crypto.AggSigner(seq(ver.AggregatedSignature.Signature), seq(PayloadHashOf(ver)), len(ver.AggregatedSignature.Signers), i, ver.AggregatedSignature.Signers[i],
 //@           seq(InKeyVal(store, ver.Inputs[k], ver.AggregatedSignature.Signers[i] - KeyOff(store, &ver.Transaction, k)))))
-//@   ensures [c02-sigs] err == nil ==> old(ver.AggregatedSignature == nil ==> forall k int, i uint16 :: {ver.Inputs[k], has(ver.SignaturesMap[k], i)} 0 <= k && k < len(ver.Inputs) && OrdInput(ver.Inputs[k]) &&
+//@   ensures [c02-sigs] @C02 err == nil ==> old(ver.AggregatedSignature == nil ==> forall k int, i uint16 :: {ver.Inputs[k], has(ver.SignaturesMap[k], i)} 0 <= k && k < len(ver.Inputs) && OrdInput(ver.Inputs[k]) &&
 //@       SignedType(InputUtxoType(store, ver.Inputs[k])) && has(ver.SignaturesMap[k], i) ==> i < InKeyCount(store, ver.Inputs[k]) &&
 //@       crypto.SigOK(seq(InKeyVal(store, ver.Inputs[k], i)), seq(PayloadHashOf(ver)), seq(*ver.SignaturesMap[k][i])))
-//@   ensures [c02-threshold] err == nil ==> old(ver.AggregatedSignature == nil ==> forall k int :: {ver.Inputs[k]} 0 <= k && k < len(ver.Inputs) && OrdInput(ver.Inputs[k]) &&
+//@   ensures [c02-threshold] @C02 err == nil ==> old(ver.AggregatedSignature == nil ==> forall k int :: {ver.Inputs[k]} 0 <= k && k < len(ver.Inputs) && OrdInput(ver.Inputs[k]) &&
 //@       SignedType(InputUtxoType(store, ver.Inputs[k])) ==> k < len(ver.SignaturesMap) && SigCount(ver.SignaturesMap[k]) >= InThreshold(store, ver.Inputs[k]))
-//@   ensures [c02-agg-threshold] err == nil ==> old(ver.AggregatedSignature != nil ==> forall k int :: {ver.Inputs[k]} 0 <= k && k < len(ver.Inputs) && OrdInput(ver.Inputs[k]) &&
+//@   ensures [c02-agg-threshold] @C02 err == nil ==> old(ver.AggregatedSignature != nil ==> forall k int :: {ver.Inputs[k]} 0 <= k && k < len(ver.Inputs) && OrdInput(ver.Inputs[k]) &&
 //@       SignedType(InputUtxoType(store, ver.Inputs[k])) ==> SignersOK(ver.AggregatedSignature.Signers) &&
 //@       (exists lo, n int :: {Witness2(lo, n)} Witness2(lo, n) && n >= InThreshold(store, ver.Inputs[k]) &&
 //@           AggWindow(ver.AggregatedSignature.Signers, lo, n, KeyOff(store, &ver.Transaction, k), KeyOff(store, &ver.Transaction, k) + InKeyCount(store, ver.Inputs[k]))))
-//@   ensures [c02-agg-verified] err == nil ==> old(ver.AggregatedSignature != nil ==> forall k, i int :: {ver.Inputs[k], ver.AggregatedSignature.Signers[i]} 0 <= k && k < len(ver.Inputs) && OrdInput(ver.Inputs[k]) &&
+//@   ensures [c02-agg-verified] @C02 err == nil ==> old(ver.AggregatedSignature != nil ==> forall k, i int :: {ver.Inputs[k], ver.AggregatedSignature.Signers[i]} 0 <= k && k < len(ver.Inputs) && OrdInput(ver.Inputs[k]) &&
 //@       SignedType(InputUtxoType(store, ver.Inputs[k])) && InAggWindow(store, &ver.SignedTransaction, k, i) ==>
 //@       crypto.AggSigner(seq(ver.AggregatedSignature.Signature), seq(PayloadHashOf(ver)), len(ver.AggregatedSignature.Signers), i, ver.AggregatedSignature.Signers[i],
 //@           seq(InKeyVal(store, ver.Inputs[k], ver.AggregatedSignature.Signers[i] - KeyOff(store, &ver.Transaction, k)))))
@@ -360,7 +360,7 @@ package common
 
 //@ func (tx *VersionedTransaction) validateMint
 //@   property C05, C01
-//@   ensures [c01-one-input] result == nil ==> len(tx.Inputs) == 1 -- no ordinary input hides before the mint input
+//@   ensures [c01-one-input] @C01 result == nil ==> len(tx.Inputs) == 1 -- no ordinary input hides before the mint input
 //@   requires tx != nil && store != nil && InputsOK(&tx.Transaction) && OutputsOK(&tx.Transaction)
 //@   requires [payload-ok] TxPayloadOK(&tx.SignedTransaction.Transaction) -- PayloadHash (C06)
 //@   requires [mint-input] len(tx.Inputs) == 1 ==> tx.Inputs[0].Mint != nil
@@ -383,7 +383,7 @@ package common
 
 //@ func (tx *SignedTransaction) validateDeposit
 //@   property C05, C01
-//@   ensures [c01-one-input] result == nil ==> len(tx.Inputs) == 1 -- no ordinary input hides before the deposit input
+//@   ensures [c01-one-input] @C01 result == nil ==> len(tx.Inputs) == 1 -- no ordinary input hides before the deposit input
 //@   requires tx != nil && store != nil && InputsOK(&tx.Transaction) && OutputsOK(&tx.Transaction) && snapTime >= CustodianGenesis(store)
 //@   requires [deposit-input] len(tx.Inputs) == 1 ==> tx.Inputs[0].Deposit != nil
 //@   modifies nothing
